@@ -69,7 +69,7 @@ PROPS = {
     "C06": dict(
         title="The node that starts is always a highest-compound-priority ready node",
         core=["SCH-PRIO", "GT-CARRY", "SCH-FRESHPICK"],
-        aux=["GT-PRIO-SINK", "SCH-RSET", "GT-FORMULA", "GT-POP", "SCH-EAGER", "SCH-STALEPICK", "GT-RECONF", "SCH-GUARD", "OWN-RUN", "GT-GATE"],
+        aux=["GT-PRIO-SINK", "SCH-RSET", "GT-FORMULA", "GT-POP", "SCH-EAGER", "SCH-STALEPICK", "GT-RECONF", "SCH-GUARD", "OWN-RUN", "GT-GATE", "VAL-CONF"],
         explanation="The choice is max over the whole runnable set keyed by the executed graph's own compound-priority table; "
                     "nothing can enlarge the runnable set between choice and dispatch; the table is populated on every path by "
                     "which a graph reaches the scheduler (typestate over graph values).",
@@ -180,7 +180,7 @@ PROPS = {
     "C17": dict(
         title="AsyncDAG equals DAG, concurrent awaits are isolated, the loop stays free",
         core=["SIB-DAG", "SIB-EXEC", "SIB-DRIVE"],
-        aux=["SIB-WAIT", "SIB-BLOCK", "OWN-RUN", "SCH-ARMS", "SCH-TASKDONE", "OWN-WRITEBACK", "GT-GATE", "OWN-EXECFLAG", "SCH-OWNTHREAD", "SIB-CTORARGS", "LCK-RUNFREE"],
+        aux=["SIB-WAIT", "SIB-BLOCK", "OWN-RUN", "SCH-ARMS", "SCH-TASKDONE", "OWN-WRITEBACK", "GT-GATE", "OWN-EXECFLAG", "SCH-OWNTHREAD", "SIB-CTORARGS", "LCK-RUNFREE", "SCH-GUARD"],
         explanation="Sibling agreement: DAG/AsyncDAG (and executor, wait-helper) pairs have equal effect summaries; the sync "
                     "flavour drives the same coroutine with all four arguments; no blocking primitive reachable in the coroutine "
                     "while async futures may be in flight (reports the known exception).",
